@@ -100,8 +100,17 @@ def gen(tier, seed):
         yield [rid, s]
 
 
-def the_variants(s):
+def the_variants(s, quick_cap=None):
     vs = [(t, v) for t, v in er.variants(s, centre_maps(s), TIER[0], SEED[0]) if t != "reverse"]
+    if TIER[0] == "quick" and quick_cap:
+        # keep one member of every family: identity, shifts, reversal, centre swaps, re-rootings, fragment orders
+        keep, seen = [], {}
+        for t, v in vs:
+            fam = t.rstrip("0123456789").split("_")[0]
+            if seen.get(fam, 0) < 2:
+                keep.append((t, v))
+                seen[fam] = seen.get(fam, 0) + 1
+        vs = keep[:quick_cap]
     return vs
 
 
@@ -119,7 +128,7 @@ def check_canon(case):
     asym_wl = reactant_discrete_within(s, 3) if bij else False
     for backend in ("wl", "nauty"):
         outs = {}
-        for tag, v in the_variants(s):
+        for tag, v in the_variants(s, quick_cap=9):
             c = CanonRSMI(backend=backend)
             try:
                 out = c.canonicalise(v).canonical_rsmi
@@ -178,7 +187,7 @@ def check_canon_partial(case):
         return Outcome(skipped="unmapped_or_duplicate_maps")
     fails = []
     n = 0
-    vs = the_variants(s)[:6]
+    vs = the_variants(s)[:(3 if TIER[0] == 'quick' else 6)]
     for k, (tag, v) in enumerate(vs):
         r, p = er.split(v)
         for front in (True, False):
